@@ -314,6 +314,71 @@ pub fn check_convert(k: &KyteaSpec, texts: &[Vec<char>]) -> Option<(String, Stri
     None
 }
 
+/// A reader that hands out at most `k` bytes per call (short reads are legal for any `Read`).
+pub struct Trickle<'a> {
+    data: &'a [u8],
+    pos: usize,
+    k: usize,
+}
+
+impl std::io::Read for Trickle<'_> {
+    fn read(&mut self, buf: &mut [u8]) -> std::io::Result<usize> {
+        let n = self.k.min(buf.len()).min(self.data.len() - self.pos);
+        buf[..n].copy_from_slice(&self.data[self.pos..self.pos + n]);
+        self.pos += n;
+        Ok(n)
+    }
+}
+
+impl std::io::BufRead for Trickle<'_> {
+    fn fill_buf(&mut self) -> std::io::Result<&[u8]> {
+        let n = self.k.min(self.data.len() - self.pos);
+        Ok(&self.data[self.pos..self.pos + n])
+    }
+    fn consume(&mut self, n: usize) {
+        self.pos += n;
+    }
+}
+
+/// Delivery deviations: the same file through readers that return short reads (at most k bytes per
+/// call; std's BufReader with small capacities, which is how the converter CLI reads) must convert
+/// to the same model as the slice.
+pub fn check_delivery(bytes: &[u8]) -> Option<(String, String)> {
+    let via = |f: &dyn Fn() -> Result<Option<Vec<u8>>, String>| guard(|| f()).and_then(|r| r);
+    let base = via(&|| {
+        let mut rest = bytes;
+        let km = KyteaModel::read(&mut rest).map_err(|e| e.to_string())?;
+        Ok(Model::try_from(km).ok().and_then(|m| m.to_vec().ok()))
+    });
+    for k in [1usize, 2, 3, 7, 13] {
+        let got = via(&|| {
+            let km = KyteaModel::read(Trickle { data: bytes, pos: 0, k }).map_err(|e| e.to_string())?;
+            Ok(Model::try_from(km).ok().and_then(|m| m.to_vec().ok()))
+        });
+        if got != base {
+            return Some((format!("delivery trickle={k}"), format!("a reader delivering at most {k} bytes per call converts to {} instead of {}", brief(&got), brief(&base))));
+        }
+    }
+    for cap in [5usize, 7, 64] {
+        let got = via(&|| {
+            let km = KyteaModel::read(std::io::BufReader::with_capacity(cap, Trickle { data: bytes, pos: 0, k: 4096 })).map_err(|e| e.to_string())?;
+            Ok(Model::try_from(km).ok().and_then(|m| m.to_vec().ok()))
+        });
+        if got != base {
+            return Some((format!("delivery bufreader={cap}"), format!("BufReader::with_capacity({cap}) converts to {} instead of {}", brief(&got), brief(&base))));
+        }
+    }
+    None
+}
+
+fn brief(r: &Result<Option<Vec<u8>>, String>) -> String {
+    match r {
+        Ok(Some(b)) => format!("a model of {} bytes (hash {:016x})", b.len(), gen::mix(b.iter().fold(0u64, |a, &x| a.wrapping_mul(1099511628211) ^ x as u64))),
+        Ok(None) => "a conversion error".into(),
+        Err(e) => format!("failure: {e}"),
+    }
+}
+
 /// Every proper prefix must be rejected with an error.
 pub fn check_prefixes(bytes: &[u8]) -> Option<(usize, String, String)> {
     for k in 0..bytes.len() {
@@ -453,6 +518,11 @@ pub fn replay(c: &Value) -> Option<(String, String)> {
         let name = c["name"].as_str()?;
         return check_prefixes(&bytes).map(|(_, kd, w)| (format!("{kd} file={name}"), w));
     }
+    if c["kind"] == "delivery" {
+        let bytes: Vec<u8> = serde_json::from_value(c["bytes"].clone()).ok()?;
+        let name = c["name"].as_str()?;
+        return check_delivery(&bytes).map(|(kd, w)| (format!("{kd} file={name}"), w));
+    }
     let k: KyteaSpec = serde_json::from_value(c["spec"].clone()).ok()?;
     let name = c["name"].as_str()?;
     let texts = gen::strings(&['a', 'b', 'あ', '1'], 1, 4);
@@ -472,6 +542,14 @@ pub fn run(tier: Tier) -> ! {
         chk.nontrivial(1);
         if let Some((kd, what)) = check_convert(k, &texts) {
             chk.violation(format!("{kd} {name}"), what, json!({"kind": "convert", "name": name, "spec": k}));
+        }
+        {
+            let bytes = write_kytea(k);
+            chk.eval(8);
+            chk.nontrivial(8);
+            if let Some((kd, what)) = check_delivery(&bytes) {
+                chk.violation(format!("{kd} file={name}"), what, json!({"kind": "delivery", "name": name, "bytes": bytes}));
+            }
         }
         // truncation: every proper prefix of every generated file (thorough) / of every 4th (quick)
         if tier == Tier::Thorough || i % 4 == 0 {
@@ -499,6 +577,9 @@ pub fn run(tier: Tier) -> ! {
     chk.set("real_model_bytes_consumed", json!(consumed));
     chk.eval(consumed as u64);
     chk.nontrivial(consumed as u64);
+    if let Some((kd, what)) = check_delivery(&real[..consumed]) {
+        chk.violation(format!("{kd} file=resources/kytea-model.bin"), what, json!({"kind": "delivery", "name": "resources/kytea-model.bin", "bytes": real[..consumed].to_vec()}));
+    }
     if let Some((_, kd, what)) = check_prefixes(&real[..consumed]) {
         chk.violation(format!("{kd} file=resources/kytea-model.bin"), what, json!({"kind": "prefix", "name": "resources/kytea-model.bin", "bytes": real[..consumed].to_vec()}));
     }
@@ -509,7 +590,7 @@ pub fn run(tier: Tier) -> ! {
     chk.assume("files without a character or type n-gram trie are not generated: the converter answers them with an explicit error by design");
     chk.assume("dictionary weight layout anchored as 3*buckets*dict + 3*bucket + {boundary before the word, inside, boundary after the word}");
     chk.finish(
-        "generated KyTea files: 2 character maps x window pairs x every set of <= k n-grams per trie (prefix-related keys, extra stored weights, the 0x04 type byte) with rotating partner sets, and 1/2/8 dictionaries x buckets {1,2,4} x word sets x membership-mask assignments (sub-sampled, stride stated in code), 0-2 tag slots; each converted model must equal the file's content (mirror-decoded, order-insensitive) and score all texts up to 4 characters as the reference dictates; every proper prefix of the generated files (quick: every 4th file) and of resources/kytea-model.bin must be rejected without a panic; evaluations = files + truncation points",
+        "generated KyTea files: 2 character maps x window pairs x every set of <= k n-grams per trie (prefix-related keys, extra stored weights, the 0x04 type byte) with rotating partner sets, and 1/2/8 dictionaries x buckets {1,2,4} x word sets x membership-mask assignments (sub-sampled, stride stated in code), 0-2 tag slots; each converted model must equal the file's content (mirror-decoded, order-insensitive) and score all texts up to 4 characters as the reference dictates; delivered through readers with short reads (at most 1/2/3/7/13 bytes per call, BufReader capacities 5/7/64) every file must convert to the same model as from a slice; every proper prefix of the generated files (quick: every 4th file) and of resources/kytea-model.bin must be rejected without a panic; evaluations = files + truncation points",
         true,
         &replay,
     )
